@@ -242,7 +242,7 @@ spec("bakeSWU", "pt msg L", {"pt": ("out", lambda sc: sc["L"] // 2), "msg": ("in
 def _wrap_scal(kind):
     def f(rng, tier):
         lens = (32, 64) if kind == "Privkey" else (33, 34)
-        return [{"plen": n, "pwdlen": rng.choice([1, 8, 20]), "iter": 10000} for n in (lens if tier != "quick" else lens[:1] + lens[1:][:1])]
+        return [{"plen": n, "pwdlen": rng.choice([1, 8, 20]), "iter": 10000} for n in (lens if tier != "quick" else (rng.choice(lens),))]
     return f
 
 
@@ -265,11 +265,11 @@ for kind in ("Privkey", "Share"):
     spec("bpki%sWrap" % kind, "epki lenp body plen pwd pwdlen salt iter",
          {"epki": ("out", lambda sc: sc["elen"]), "lenp": ("out", lambda sc: 8), "body": ("in", lambda sc: sc["plen"]),
           "pwd": ("in", lambda sc: sc["pwdlen"]), "salt": ("in", lambda sc: 8)}, ("epki", "body"), _wrap_scal(kind),
-         prep=_wrap_prep(kind), forbid=[("epki", "lenp")], quick_offsets=9)
+         prep=_wrap_prep(kind), forbid=[("epki", "lenp")], quick_offsets=5)
     spec("bpki%sUnwrap" % kind, "body lenp epki elen pwd pwdlen",
          {"body": ("out", lambda sc: sc["plen"]), "lenp": ("out", lambda sc: 8), "epki": ("in", lambda sc: sc["elen"]),
           "pwd": ("in", lambda sc: sc["pwdlen"])}, ("body", "epki"), _wrap_scal(kind), prep=_wrap_prep(kind),
-         forbid=[("body", "lenp")], quick_offsets=9)
+         forbid=[("body", "lenp")], quick_offsets=5)
 
 CSR = bytes.fromhex(
     "3082017A30820134020100305F3115301306035504030C0C524F424552542053" "4D495448310E300C06035504040C05534D495448310F300D060355042A0C0652"
@@ -389,8 +389,8 @@ NOT_TOLERATED = {
     "btokCVCIss": [("cert", "priva")],
     "hexTo": [("dest", "src")], "hexToRev": [("dest", "src")],
 }
-# bignIdSign/bignIdSign2: (id_sig, hash) is excluded like (sig, hash) of bignSign (docs/C11.fix-7.diff adds the check and
-# the header sentence; before it the pair silently gives a wrong signature)
+# bignIdSign/bignIdSign2: (id_sig, hash) is excluded like (sig, hash) of bignSign: the header is silent, the code writes the
+# first half of id_sig before reading hash and returns ERR_OK with a wrong signature (recorded in docs/C11.md, no finding)
 HL["bignIdSign"]["forbid"].append(("idsig", "hash"))
 HL["bignIdSign2"]["forbid"].append(("idsig", "hash"))
 # own programs in Bee2V/C11/Prog.lean (not the generic progIO)
@@ -432,5 +432,5 @@ def describe(case, addr):
 HL["bignKeyWrap"]["extra"] = lambda sc: [[("token", "key", 0), ("hdr", "key", sc["len"])],            # buf = key || header, token = buf
                                          [("token", "key", -(sc["L"] // 4)), ("hdr", "key", sc["len"])],  # key || header already at their final place
                                          [("hdr", "token", sc["L"] // 4 + 8)], [("hdr", "token", sc["L"] // 4 + sc["len"])]]
-HL["bignKeyUnwrap"]["extra"] = lambda sc: [[("key", "token", 0)], [("key", "token", 0), ("hdr", "token", 4)],
+HL["bignKeyUnwrap"]["extra"] = lambda sc: [[("key", "token", 0)], [("key", "token", sc["tlen"] - 8), ("hdr", "key", 8)],
                                            [("key", "token", sc["L"] // 4)], [("key", "token", sc["tlen"] - 16 - 8)]]
